@@ -11,6 +11,10 @@ if ! git apply "$SRC/patch.diff"; then echo "$NAME: PATCH DOES NOT APPLY"; cd /;
 PYTHONPATH="$WT" /venv/bin/python "$SRC/demo.py" > /tmp/conf_$NAME.mut.log 2>&1; MUT=$?
 /venv/bin/python -m pytest -q -p no:cacheprovider --timeout=900 -n 4 --deselect tests/core/test_drawing.py::test_handler --deselect "tests/sql/column/test_column_select_column_dialect_specific.py::test_tsql_assignment_operator" --deselect tests/sql/table/multiple_statements/test_tmp_table.py::test_create_after_drop --deselect tests/sql/table/test_create.py::test_create_if_not_exist > /tmp/conf_$NAME.tests.log 2>&1
 TESTS=$(tail -1 /tmp/conf_$NAME.tests.log)
+case "$TESTS" in *error*)  # xdist workers race on the sqlite fixture files: run once more, sequentially
+  /venv/bin/python -m pytest -q -p no:cacheprovider --timeout=900 --deselect tests/core/test_drawing.py::test_handler --deselect "tests/sql/column/test_column_select_column_dialect_specific.py::test_tsql_assignment_operator" --deselect tests/sql/table/multiple_statements/test_tmp_table.py::test_create_after_drop --deselect tests/sql/table/test_create.py::test_create_if_not_exist > /tmp/conf_$NAME.tests.log 2>&1
+  TESTS=$(tail -1 /tmp/conf_$NAME.tests.log);;
+esac
 cd /
 git -C /repo worktree remove --force "$WT"
 echo "$NAME: demo_clean_exit=$CLEAN demo_mutant_exit=$MUT tests: $TESTS"
